@@ -202,11 +202,11 @@ def dist_terms_rule(ctx):
     # --- conditional normal: component roles (means, log_stds) agree across the three methods
     cdn = p.find_class("ConditionalDiagonalNormal", "nflows.distributions.normal")
     cp = cdn.methods.get("_compute_params")
-    rets = [n for n in ast.walk(cp.node) if isinstance(n, ast.Return)]
-    if len(rets) == 1 and isinstance(rets[0].value, ast.Tuple) and [norm_text(e) for e in rets[0].value.elts] == ["means", "log_stds"]:
-        res.ok("_compute_params returns (means, log_stds)")
+    rets = [pp for pp in paths_of(cp.node) if pp.kind == "return"]
+    if rets and all(isinstance(pp.ret, ast.Tuple) and len(pp.ret.elts) == 2 for pp in rets):
+        res.ok("_compute_params returns a pair on every path")
     else:
-        res.undecide("ConditionalDiagonalNormal._compute_params", "does not return (means, log_stds)")
+        res.undecide("ConditionalDiagonalNormal._compute_params", "does not return a pair (means, log_stds)")
     lp = cdn.methods.get("_log_prob")
     # roles of the two components of _compute_params, read off the monomial normal form of the
     # log-density: the component under exp^-2 inside the square and in the subtracted sum is the
@@ -333,6 +333,12 @@ def dist_terms_rule(ctx):
     from ..symexp import uwalk as _uw, is_component as _is_comp
 
     def slot_of(e):
+        if isinstance(e, ast.Subscript) and isinstance(e.value, ast.Call) and norm_text(e.value.func).split(".")[-1] == "unbind" and isinstance(const_number(e.slice), int):
+            c = e.value
+            d = next((k.value for k in c.keywords if k.arg == "dim"), c.args[-1] if c.args else None)
+            if d is not None and const_number(d) == -1:
+                return const_number(e.slice)
+            return None
         if isinstance(e, ast.Subscript):
             sl = e.slice
             elts = sl.elts if isinstance(sl, ast.Tuple) else [sl]
